@@ -12,7 +12,8 @@ EXPLANATION = (
     "a mappings-only tick still sends (Updates::is_empty consults mappings); the mappings section has the lowest flag bit, so it is "
     "written and applied first (C03.R2). R2: on the client a mapping is adopted (map entry + marker) only if the named client entity "
     "still exists; otherwise nothing is recorded and the entity's own record takes the fresh-spawn branch. R3: pending mappings are "
-    "per client (a component required by AuthorizedClient). R4: writer and reader agree on (server entity, client entity) order.")
+    "per client (a component required by AuthorizedClient). R4: writer and reader agree on (server entity, client entity) order."
+    " R5: the update message (which carries the mappings and bumps the update tick) is built before the mutate messages of the same tick are stamped (C04.R2).")
 NOT_DECIDED = "timing histories: that the server registered the mapping no later than the entity's first visibility; interplay with arbitrary neighbouring traffic"
 TRUSTED_BASE = C03.TRUSTED_BASE
 
@@ -162,11 +163,24 @@ def r20_unconditional_mutators(ctx):
     mutators.run_for(ctx, "C16")
 
 
+def r5_update_tick_before_mutations(ctx):
+    """A mutate message must wait for the update message of its tick (which carries the mappings): the client's update tick is bumped,
+    and the update message built, before the mutate messages of the same client are stamped (the send_messages part of C04.R2). Stamped
+    with the previous tick, a mutate message that overtakes the update message is applied first; a reference to a not yet mapped entity
+    then reserves a second client entity for it."""
+    import rules.C04 as C04
+    before = len(ctx.instances)
+    C04.r2_stamping(ctx)
+    keep = [i for i in ctx.instances[before:] if "send_messages/" in i["key"]]
+    ctx.instances[before:] = keep
+
+
 RULES = [
     ("C16.R1", "pending mappings are drained into the same client's next update message and travel first", r1_travel_with_tick, 10, ["default", "all-features", "server-only"]),
     ("C16.R2", "adoption only if the pre-spawned entity still exists; the record spawns only when unmapped", r2_adoption, 8, ["default", "all-features", "client-only"]),
     ("C16.R3", "pending mappings are per client and stored as (server, client)", r3_per_client, 3, ["default", "all-features", "server-only"]),
     ("C16.R4", "mapping pairs are written as (server, client)", r4_pair_order, 2, ["default", "all-features", "server-only"]),
     ("C16.R20", "mutators this property relies on always perform their effect (rules/mutators.py): no early return, no guard outside the allowed set", r20_unconditional_mutators, 1, ["default", "all-features"]),
+    ("C16.R5", "the update tick is bumped and the update message built before the mutate messages of the same tick are stamped (same rule as C04.R2)", r5_update_tick_before_mutations, 5, ["default", "all-features", "server-only"]),
 ]
 THOROUGH_CONFIGS = ["default", "all-features", "server-only", "client-only"]
